@@ -138,6 +138,7 @@ def _run(sc, r, scratch, i):
         plan = shimlog.plan(shimlog.rule(ops, b"", nth, "fail:%d" % en))
     log = os.path.join(d, "shim.log")
     env = shimlog.shim_env(log, [troot, target, d], plan)
+    env.update(common.ambient_env(r, elsewhere=os.path.join(home, "tmp")))
     threads = 1 if fault else None
     rres, rargv = dd.run_dedupe("move", cfg, report, troot, home, target=target_arg, extra_env=env, threads=threads)
     after = {}
